@@ -371,6 +371,15 @@ func (e *Engine) vfsIsDir(path string) bool {
 }
 
 var natives = map[string]extFn{
+	"github.com/yinfei8/jrpc2.NewServer": func(e *Engine, _ *frame, _ *ssa.Function, a []value) value {
+		p := new(value)
+		*p = &native{desc: "jrpc2-server"}
+		return p
+	},
+	"(*github.com/yinfei8/jrpc2.Server).Notify": func(e *Engine, _ *frame, _ *ssa.Function, a []value) value {
+		e.Notifies++
+		return iface{} // the diagnostic is handed to the transport; no error
+	},
 	"io/ioutil.ReadFile": vfsRead,
 	"os.ReadFile":        vfsRead,
 	"context.Background": func(e *Engine, _ *frame, fn *ssa.Function, a []value) value { return iface{t: errorT, v: "ctx"} },
@@ -394,12 +403,12 @@ var natives = map[string]extFn{
 	"time.Now":   func(e *Engine, _ *frame, fn *ssa.Function, a []value) value { return zero(fn.Signature.Results().At(0).Type()) },
 	"time.Since": func(e *Engine, _ *frame, fn *ssa.Function, a []value) value { return uint64(0) },
 	"(time.Duration).Milliseconds": func(e *Engine, _ *frame, fn *ssa.Function, a []value) value { return uint64(0) },
-	"(*sync.Mutex).Lock":   nop,
-	"(*sync.Mutex).Unlock": nop,
-	"(*sync.RWMutex).Lock":   nop,
-	"(*sync.RWMutex).Unlock": nop,
-	"(*sync.RWMutex).RLock":   nop,
-	"(*sync.RWMutex).RUnlock": nop,
+	"(*sync.Mutex).Lock": func(e *Engine, _ *frame, _ *ssa.Function, a []value) value { e.raceLock(a[0].(*value)); return nil },
+	"(*sync.Mutex).Unlock": func(e *Engine, _ *frame, _ *ssa.Function, a []value) value { e.raceUnlock(a[0].(*value)); return nil },
+	"(*sync.RWMutex).Lock": func(e *Engine, _ *frame, _ *ssa.Function, a []value) value { e.raceLock(a[0].(*value)); return nil },
+	"(*sync.RWMutex).Unlock": func(e *Engine, _ *frame, _ *ssa.Function, a []value) value { e.raceUnlock(a[0].(*value)); return nil },
+	"(*sync.RWMutex).RLock": func(e *Engine, _ *frame, _ *ssa.Function, a []value) value { e.raceLock(a[0].(*value)); return nil },
+	"(*sync.RWMutex).RUnlock": func(e *Engine, _ *frame, _ *ssa.Function, a []value) value { e.raceUnlock(a[0].(*value)); return nil },
 	"errors.New": func(e *Engine, _ *frame, fn *ssa.Function, a []value) value { return mkError(a[0].(string)) },
 	"strings.Join": func(e *Engine, _ *frame, fn *ssa.Function, a []value) value {
 		var out []value
